@@ -814,6 +814,9 @@ def c13(run):
             ("Lifecycle_limreset_" + t, "L1 ResetClean (limits included) + export of the round histories of authorizers created with maxFacts 1..3 in which an evaluation fails", {}),
             ("Lifecycle_neg_base", "negative model: base world overwritten after Authorize", {"expect_violation": True}),
             ("Lifecycle_neg_limits", "negative model: Reset builds a world with the default limits", {"expect_violation": True})]
+    if run.tier != "thorough":
+        # three-round histories (a second Reset) in the quick tier: a seeded sample of simulated behaviours
+        cfgs.insert(1, ("Lifecycle_reset_sim", "L1 ResetClean on simulated 3-round histories + export", {"simulate": 120, "depth": 30, "seed": run.seed, "workers": 4}))
     if run.tier == "thorough":
         cfgs.insert(1, ("Lifecycle_reset_sim", "L1 ResetClean on simulated 3-round histories + export", {"simulate": 400, "depth": 30, "seed": run.seed, "workers": 8}))
         cfgs.insert(2, ("Lifecycle_limreset_sim", "L1 ResetClean on simulated 3-round histories of limited authorizers + export", {"simulate": 400, "depth": 30, "seed": run.seed, "workers": 8}))
@@ -836,7 +839,7 @@ def c18(run):
     driver = core.build_driver(run.work)
     contents = [h["arg"] for c in insts for h in c["hist"] if h["op"] == "add"]
     cases = []
-    knobs = ["", "version-absent", "version-0", "version-4", "policy-kind-99", "policy-no-kind", "fact-index-2^63", "check-empty-op", "rule-set-bytes"]
+    knobs = ["", "version-absent", "version-0", "version-4", "policy-kind-99", "policy-kind-neg", "policy-no-kind", "fact-index-2^63", "check-empty-op", "rule-set-bytes"]
     for i in range(2000 if run.tier == "quick" else 60000):
         cases.append({"id": "p%d" % i, "emb": emb_of(run, i), "az": contents[i % len(contents)], "knob": knobs[i % len(knobs)] if i < 40 * len(knobs) else "",
                       "corrupt": 0 if i < 40 * len(knobs) else run.seed * 104729 + i})
